@@ -10,6 +10,9 @@ import (
 	"time"
 )
 
+// CtxExpiry: when true, model deadlines never strike (harnesses that are not about deadlines).
+var CtxNoExpiry = false
+
 type ModelCtx struct {
 	children []*ModelCtx
 	parent   context.Context
@@ -48,7 +51,7 @@ func (c *ModelCtx) poll() {
 			return
 		}
 	}
-	if c.deadline && Bool("ctx.expire") {
+	if c.deadline && !CtxNoExpiry && Bool("ctx.expire") {
 		c.cancel(context.DeadlineExceeded, c.dlCause)
 	}
 }
